@@ -87,6 +87,13 @@ static void nc_prepare(void)
         od_add(&b, CO_KEY(0x1200, 1, CO_OBJ_____RW), CO_TSDO_ID, (CO_DATA)&SsdoRx);
         od_add(&b, CO_KEY(0x1200, 2, CO_OBJ_____RW), CO_TSDO_ID, (CO_DATA)&SsdoTx);
     }
+#if CO_SSDO_N > 1
+    if (NC.sdo_srv > 1) {                                        /* second SDO server on 640h/5C0h + node id */
+        od_add(&b, CO_KEY(0x1201, 0, CO_OBJ_D___R_), CO_TUNSIGNED8,  (CO_DATA)2);
+        od_add(&b, CO_KEY(0x1201, 1, CO_OBJ_DN__R_), CO_TUNSIGNED32, (CO_DATA)0x640);
+        od_add(&b, CO_KEY(0x1201, 2, CO_OBJ_DN__R_), CO_TUNSIGNED32, (CO_DATA)0x5C0);
+    }
+#endif
     if (NC.hist > 0) {
         od_add(&b, CO_KEY(0x1003, 0, CO_OBJ_____RW), CO_TEMCY_HIST, (CO_DATA)&HistNum);
         for (i = 0; i < NC.hist; i++) od_add(&b, CO_KEY(0x1003, 1 + i, CO_OBJ_____R_), CO_TEMCY_HIST, (CO_DATA)&Hist[i]);
